@@ -59,25 +59,26 @@ type World struct {
 	oldProbe  http.RoundTripper
 	logBuf    *lockedBuffer
 
-	mu        sync.Mutex
-	targets   map[string]*FakeTarget
-	trs       []*http.Transport
-	ids       map[any]int
-	idn       map[string]int
-	hcs       map[*server.HealthCheck]bool
-	stop      chan struct{}
-	wg        sync.WaitGroup
-	parkSet   map[string]bool
-	lanesLeft int
-	reqsOpen  int
-	tgtOf     map[*server.Target]string
-	cmdDone   map[string]chan struct{}
-	extra     KV
-	hmu       sync.RWMutex
-	echo      echoStore
-	nclaims   int
-	closers   []func()
-	quiet     atomic.Bool
+	mu          sync.Mutex
+	targets     map[string]*FakeTarget
+	trs         []*http.Transport
+	ids         map[any]int
+	idn         map[string]int
+	hcs         map[*server.HealthCheck]bool
+	inflightRid map[any]string
+	stop        chan struct{}
+	wg          sync.WaitGroup
+	parkSet     map[string]bool
+	lanesLeft   int
+	reqsOpen    int
+	tgtOf       map[*server.Target]string
+	cmdDone     map[string]chan struct{}
+	extra       KV
+	hmu         sync.RWMutex
+	echo        echoStore
+	nclaims     int
+	closers     []func()
+	quiet       atomic.Bool
 }
 
 // claims: requests currently registered at targets (claims minus ends), from the hooks.
@@ -151,6 +152,7 @@ func (w *World) setup(scn int) {
 	w.ids = map[any]int{}
 	w.idn = map[string]int{}
 	w.hcs = map[*server.HealthCheck]bool{}
+	w.inflightRid = map[any]string{}
 	w.tgtOf = map[*server.Target]string{}
 	w.stop = make(chan struct{})
 	w.cmdDone = map[string]chan struct{}{}
@@ -260,7 +262,8 @@ func (w *World) teardown() {
 func (w *World) run(scn int) {
 	w.setup(scn)
 	plan := w.plan
-	w.rec.Emit("reset", KV{"family": plan.Family, "urgent": plan.Urgent, "seed": plan.Seed, "note": plan.Note})
+	w.rec.Emit("reset", KV{"family": plan.Family, "urgent": plan.Urgent, "seed": plan.Seed, "note": plan.Note,
+		"sched": plan.Sched, "burst": plan.Burst, "lanes": len(plan.Lanes), "spin": plan.SnapSpin > 0})
 
 	w.lanesLeft = len(plan.Lanes) + len(plan.Clients)
 	for i, lane := range plan.Lanes {
@@ -340,6 +343,7 @@ func (w *World) run(scn int) {
 				opts = append(opts, "burst")
 				internal = append(internal, false)
 				w.ctl.Decisions = append(w.ctl.Decisions, "burst")
+				w.rec.Emit("x_burst", nil)
 				for _, p := range ps {
 					w.ctl.release(p)
 				}
@@ -352,6 +356,7 @@ func (w *World) run(scn int) {
 			}
 			w.ctl.Decisions = append(w.ctl.Decisions, opts[i])
 			if opts[i] == "burst" {
+				w.rec.Emit("x_burst", nil)
 				for _, p := range ps {
 					w.ctl.release(p)
 				}
@@ -368,12 +373,16 @@ func (w *World) run(scn int) {
 				}
 			} else {
 				idle = 0
+				if ps[i].internal {
+					w.rec.Emit("x_rel", KV{"point": ps[i].point, "actor": ps[i].actor})
+				}
 				w.ctl.release(ps[i])
 			}
 		}
 	}
 
 	// settle: everything runs free, time passes
+	w.rec.Emit("x_settle", nil)
 	w.ctl.SetAuto(true)
 	settle := time.Duration(plan.SettleMs) * time.Millisecond
 	if settle == 0 {
@@ -559,6 +568,31 @@ func (w *World) onEmit(event string, objs ...any) {
 		kv["r"] = rid
 		kv["tg"] = server.VerifTargetName(t)
 		kv["tid"] = w.id("target:"+server.VerifTargetName(t), t)
+		if event == "claim" && len(objs) > 2 {
+			w.mu.Lock()
+			w.inflightRid[objs[2]] = rid
+			w.mu.Unlock()
+		}
+	case "hijacked":
+		w.mu.Lock()
+		rid := w.inflightRid[objs[0]]
+		w.mu.Unlock()
+		if rid == "" {
+			return
+		}
+		kv["r"] = rid
+	case "drain_snapshot":
+		t := objs[0].(*server.Target)
+		kv["tg"] = server.VerifTargetName(t)
+		kv["tid"] = w.id("target:"+server.VerifTargetName(t), t)
+		rids := []string{}
+		for _, req := range server.VerifInflightRequests(objs[1]) {
+			if rid := ridOf(req); rid != "" {
+				rids = append(rids, rid)
+			}
+		}
+		sort.Strings(rids)
+		kv["rs"] = rids
 	case "claim_none":
 		req := objs[0].(*http.Request)
 		rid := ridOf(req)
